@@ -1,5 +1,5 @@
 From PL Require Import IO.Pipe.
-Open Scope N_scope.
+Local Open Scope N_scope.
 
 (* the abstract stream: bytes and flush marks *)
 Inductive item := IB (b : N) | IMark.
